@@ -19,6 +19,8 @@ pub struct HoldAndRelease {
     pub actuation: f32,
 
     timer: ConditionTimer,
+
+    actuated: bool,
 }
 
 impl HoldAndRelease {
@@ -28,6 +30,7 @@ impl HoldAndRelease {
             hold_time,
             actuation: DEFAULT_ACTUATION,
             timer: Default::default(),
+            actuated: false,
         }
     }
 
@@ -58,12 +61,15 @@ impl InputCondition for HoldAndRelease {
         self.timer.update(time);
         let held_duration = self.timer.duration();
 
-        if value.is_actuated(self.actuation) {
+        let previously_actuated = self.actuated;
+        self.actuated = value.is_actuated(self.actuation);
+
+        if self.actuated {
             ActionState::Ongoing
         } else {
             self.timer.reset();
             // Trigger if we've passed the threshold and released.
-            if held_duration >= self.hold_time {
+            if previously_actuated && held_duration >= self.hold_time {
                 ActionState::Fired
             } else {
                 ActionState::None
